@@ -552,4 +552,138 @@ theorem infix_contig {S d : List Sample} (hS : SSorted S) (hinf : d <:+: S) {z y
   · have := ssorted_append_lt hS y (List.mem_append_right s hy) w hw
     omega
 
+/-! ### one replica read without deduplication: the union of its (possibly overlapping) cuts -/
+
+theorem mem_dropLt_sorted {c : List Sample} (hc : SSorted c) {k : Int} {a : Sample} :
+    a ∈ dropLt k c ↔ a ∈ c ∧ k ≤ a.t := by
+  rw [← filter_ge_eq_dropLt k hc]
+  simp [List.mem_filter]
+
+/-- **The union of sorted cuts that cover `S` is `S`** — whatever their overlaps. -/
+theorem union_cover (S : List Sample) (hS : SSorted S) (cs : List RChunk)
+    (hcut : ∀ c ∈ cs, c.samples ≠ [] ∧ c.samples <:+: S)
+    (hsorted : cs.Pairwise (fun a b => a.mint ≤ b.mint))
+    (hcover : ∀ x ∈ S, ∃ c ∈ cs, x ∈ c.samples) :
+    ∀ (rest done : List RChunk) (P Q : List Sample) (last : Int), cs = done ++ rest → S = P ++ Q →
+      (∀ a ∈ P, a.t ≤ last) → (∀ b ∈ Q, last < b.t) →
+      (∀ c ∈ done, ∀ x ∈ c.samples, x ∈ P) →
+      unionFrom last (rest.map (·.samples)) = Q := by
+  intro rest
+  induction rest with
+  | nil =>
+    intro done P Q last hcs hPQ _ hQ hdone
+    simp only [List.map_nil, unionFrom]
+    cases Q with
+    | nil => rfl
+    | cons g Q' =>
+      exfalso
+      obtain ⟨d, hd, hgd⟩ := hcover g (by rw [hPQ]; simp)
+      have hdd : d ∈ done := by rw [hcs] at hd; simpa using hd
+      have hgP := hdone d hdd g hgd
+      have := ssorted_append_lt (by rw [← hPQ]; exact hS) g hgP g (by simp)
+      omega
+  | cons c rest ih =>
+    intro done P Q last hcs hPQ hP hQ hdone
+    have hccs : c ∈ cs := by rw [hcs]; simp
+    obtain ⟨hcne, hcinf⟩ := hcut c hccs
+    have hcsort : SSorted c.samples := List.Pairwise.sublist hcinf.sublist hS
+    have hSs : SSorted (P ++ Q) := by rw [← hPQ]; exact hS
+    have hcs' : cs = (done ++ [c]) ++ rest := by rw [hcs]; simp
+    -- samples of S at or before `last` are in P
+    have hinP : ∀ x ∈ S, x.t ≤ last → x ∈ P := by
+      intro x hx hle
+      rw [hPQ] at hx
+      rcases List.mem_append.mp hx with hx | hx
+      · exact hx
+      · have := hQ x hx; omega
+    simp only [List.map_cons, unionFrom]
+    cases hnew : dropLt (last + 1) c.samples with
+    | nil =>
+      simp only
+      apply ih (done ++ [c]) P Q last hcs' hPQ hP hQ
+      intro c' hc' x hx
+      rcases List.mem_append.mp hc' with hc' | hc'
+      · exact hdone c' hc' x hx
+      · simp at hc'; subst hc'
+        apply hinP x (hcinf.subset hx)
+        have := all_lt_of_dropLt_nil hnew x hx
+        omega
+    | cons x r =>
+      simp only
+      -- the new part is a cut of S lying after P, hence a cut of Q, in fact a prefix of Q
+      have hsuf : (x :: r) <:+ c.samples := by rw [← hnew]; exact dropLt_suffix _ _
+      have hinfS : (x :: r) <:+: S := hsuf.isInfix.trans hcinf
+      have hx1 : last + 1 ≤ x.t := head_dropLt_ge (by rw [hnew]; rfl)
+      have hinQ : (x :: r) <:+: Q := by
+        apply infix_right (P := P) rfl (by rw [← hPQ]; exact hinfS)
+        intro a ha; have := hP a ha; omega
+      obtain ⟨u, v, huv⟩ := hinQ
+      have hu : u = [] := by
+        cases u with
+        | nil => rfl
+        | cons g u' =>
+          exfalso
+          have hgQ : g ∈ Q := by rw [← huv]; simp
+          have hgS : g ∈ S := by rw [hPQ]; exact List.mem_append_right _ hgQ
+          have hQs : SSorted Q := List.Pairwise.sublist (List.sublist_append_right P Q) hSs
+          have hgx : g.t < x.t := by
+            rw [← huv] at hQs
+            exact head_lt_of_infix (u := u') (v := v) hQs
+          have hglast := hQ g hgQ
+          -- g in c would make g part of the new samples, before their head x
+          have hnotc : g ∉ c.samples := by
+            intro hgc
+            have : g ∈ dropLt (last + 1) c.samples := (mem_dropLt_sorted hcsort).mpr ⟨hgc, by omega⟩
+            rw [hnew] at this
+            have hsx : SSorted (x :: r) := List.Pairwise.sublist hsuf.sublist hcsort
+            rcases List.mem_cons.mp this with h | h
+            · rw [h] at hgx; omega
+            · have := (List.pairwise_cons.mp hsx).1 g h; omega
+          obtain ⟨d, hd, hgd⟩ := hcover g hgS
+          rw [hcs] at hd hsorted
+          rcases List.mem_append.mp hd with hd | hd
+          · have hgP := hdone d hd g hgd
+            have := ssorted_append_lt hSs g hgP g hgQ
+            omega
+          · rcases List.mem_cons.mp hd with rfl | hd
+            · exact hnotc hgd
+            · -- d comes after c: c.mint ≤ d.mint ≤ g.t < x.t, so g lies inside the cut c
+              have hle := (List.pairwise_cons.mp (List.pairwise_append.mp hsorted).2.1).1 d hd
+              have hdb := (mem_chunk_bounds hS (hcut d (by rw [hcs]; simp [hd])).2 hgd).1
+              obtain ⟨z, cr, hz⟩ : ∃ z cr, c.samples = z :: cr := by
+                cases hcs2 : c.samples with
+                | nil => exact absurd hcs2 hcne
+                | cons z cr => exact ⟨z, cr, rfl⟩
+              have hzm := (mint_of_cons hz).1
+              exact hnotc (infix_contig hS hcinf (z := z) (y := x) (by rw [hz]; simp)
+                (hsuf.subset (by simp)) hgS (by omega) (by omega))
+      subst hu
+      simp only [List.nil_append] at huv
+      have hsx : SSorted (x :: r) := List.Pairwise.sublist hsuf.sublist hcsort
+      rw [← huv]
+      congr 1
+      apply ih (done ++ [c]) (P ++ (x :: r)) v (lastOf x r) hcs'
+      · rw [hPQ, ← huv]; simp
+      · intro a ha
+        rcases List.mem_append.mp ha with ha | ha
+        · have := hP a ha
+          have := le_lastOf hsx x (by simp)
+          omega
+        · exact le_lastOf hsx a ha
+      · intro b hb
+        -- b ∈ v comes after the last element of x :: r in the sorted Q
+        have hQs : SSorted Q := List.Pairwise.sublist (List.sublist_append_right P Q) hSs
+        rw [← huv] at hQs
+        have hlast : (x :: r).getLast? = some (r.getLast?.getD x) := getLast?_cons_getD r x
+        exact ssorted_append_lt hQs _ (List.mem_of_getLast? hlast) b hb
+      · intro c' hc' y hy
+        rcases List.mem_append.mp hc' with hc' | hc'
+        · exact List.mem_append_left _ (hdone c' hc' y hy)
+        · simp at hc'; subst hc'
+          by_cases hyl : y.t ≤ last
+          · exact List.mem_append_left _ (hinP y (hcinf.subset hy) hyl)
+          · apply List.mem_append_right
+            rw [← hnew]
+            exact (mem_dropLt_sorted hcsort).mpr ⟨hy, by omega⟩
+
 end Thanos.Dedup
